@@ -238,9 +238,12 @@ def run_check(pid, tier, seed, jobs):
                     uenv = dict(env, PYTHONHASHSEED=str(unit['hashseed']))
                 if isinstance(unit, dict) and unit.get('c_locale'):
                     uenv = dict(uenv, **C_LOCALE)
+                # the worker's output goes to a file: a pipe nobody reads until the end would block a talkative worker for ever
+                lf = open(os.path.join(tmp, f'l{i}.txt'), 'wb')
                 p = subprocess.Popen(
                     [PY] + (['-O'] if isinstance(unit, dict) and unit.get('pyopt') else []) + ['-m', 'vmon.runner', '--worker', pid, tier, str(seed), uf, of],
-                    cwd=HERE, env=uenv, stdout=subprocess.PIPE, stderr=subprocess.STDOUT)
+                    cwd=HERE, env=uenv, stdout=lf, stderr=subprocess.STDOUT)
+                lf.close()
                 running.append((i, p, of, time.time()))
             time.sleep(0.02)
             still = []
@@ -254,7 +257,13 @@ def run_check(pid, tier, seed, jobs):
                     else:
                         still.append((i, p, of, ts))
                     continue
-                out = p.stdout.read().decode('utf8', 'replace')
+                try:
+                    with open(os.path.join(tmp, f'l{i}.txt'), 'rb') as lf:
+                        lf.seek(max(0, os.path.getsize(lf.name) - 4000))
+                        out = lf.read().decode('utf8', 'replace')
+                    os.unlink(os.path.join(tmp, f'l{i}.txt'))
+                except OSError:
+                    out = ''
                 if rc != 0 or not os.path.exists(of):
                     problems.append(f'unit {i} died rc={rc}: {out[-800:]}')
                 else:
